@@ -24,8 +24,11 @@ import (
 // Variant "stacked": a second layer on top of the first one (the underlying store of a layer may
 // itself be a layer, as merkle.NewBuilder(layerDB) does); the statement is checked for the top
 // layer against the view of the layer below, and for the lower layer against the MapDB.
-// Not decided: empty values (ambiguous with "absent" in real back-ends; all writers store non-empty
-// data), the error Flush(false) returns after a commit (the layer is then in direct mode: only
+// Empty values: over the MapDB a zero-length value is a stored value (Has = true, Get has length 0)
+// both in the layer and in the store, so "the underlying store equals the layered view" is decided
+// for them too (presence through Has; whether Get returns nil or an empty slice for a present empty
+// value is not decided). About one set in eight writes an empty or nil value.
+// Not decided: the error Flush(false) returns after a commit (the layer is then in direct mode: only
 // "the underlying store stays as it is" is checked), the order in which a commit replays writes.
 
 var c19Buckets = []db.BucketID{db.MerkleTrie, db.BytesByHash, db.ChainProperty}
@@ -112,7 +115,7 @@ func c19q(v []byte) string {
 }
 
 func TestC19(t *testing.T) {
-	rec := ev.New("C19", "rapid histories on db.NewLayerDB over a MapDB pre-filled with drawn pairs (3 buckets, 7-key pool per bucket incl. keys shared between buckets; optionally a second layer stacked on the first): set(non-empty)/delete/get/has through cached or freshly fetched bucket handles, interleaved with Flush(true)/Flush(false) of a drawn layer, compared step by step with a map+tombstone model; at every flush the whole underlying store is compared; non-trivial = a key present in the underlying store was deleted and then set again in one uncommitted layer generation which was then committed; distinct by (prefill, op list)")
+	rec := ev.New("C19", "rapid histories on db.NewLayerDB over a MapDB pre-filled with drawn pairs (3 buckets, 7-key pool per bucket incl. keys shared between buckets; optionally a second layer stacked on the first): set (about 1 in 8 with an empty or nil value)/delete/get/has through cached or freshly fetched bucket handles, interleaved with Flush(true)/Flush(false) of a drawn layer, compared step by step with a map+tombstone model; at every flush the whole underlying store is compared; non-trivial = a key present in the underlying store was deleted and then set again in one uncommitted layer generation which was then committed; distinct by (prefill, op list)")
 	defer rec.Flush(t)
 	maxOps := ev.Pick(40, 120)
 	keyPool := []string{"a", "b", "ab", "k3", "\x00", "key-with-longer-name", "z"}
@@ -120,12 +123,17 @@ func TestC19(t *testing.T) {
 		spy := &c19spyDB{db.NewMapDB(), map[string]bool{}}
 		w := &c19world{base: c19store{}}
 		var ops []string
+		emptyVals := 0
 		// prefill the underlying store directly
 		npre := rapid.IntRange(0, 8).Draw(rt, "npre")
 		for i := 0; i < npre; i++ {
 			b := rapid.SampledFrom(c19Buckets).Draw(rt, "pb")
 			k := rapid.SampledFrom(keyPool).Draw(rt, "pk")
 			v := []byte(fmt.Sprintf("base%d", i))
+			if rapid.IntRange(0, 9).Draw(rt, "pempty") == 0 {
+				v = []byte{}
+				emptyVals++
+			}
 			bk, err := spy.GetBucket(b)
 			if err != nil {
 				ev.Inconclusive("MapDB GetBucket: %v", err)
@@ -134,7 +142,7 @@ func TestC19(t *testing.T) {
 				ev.Inconclusive("MapDB Set: %v", err)
 			}
 			w.base[string(b)+"/"+k] = v
-			ops = append(ops, fmt.Sprintf("pre(%q,%q)", string(b), k))
+			ops = append(ops, fmt.Sprintf("pre(%q,%q,%q)", string(b), k, v))
 		}
 		depth := 1
 		if rapid.IntRange(0, 3).Draw(rt, "stacked") == 0 {
@@ -204,7 +212,7 @@ func TestC19(t *testing.T) {
 				if err != nil {
 					fail("%s: Get(%q,%q) error %v", what, string(b), k, err)
 				}
-				if !bytes.Equal(got, want) || (got == nil) != (want == nil) {
+				if !bytes.Equal(got, want) || (want == nil && got != nil) {
 					fail("%s: bucket %q key %q holds %s, expected %s", what, string(b), k, c19q(got), c19q(want))
 				}
 				has, err := bk.Has(k)
@@ -252,9 +260,18 @@ func TestC19(t *testing.T) {
 			case op < 34: // set
 				b, k := pick()
 				v := []byte(fmt.Sprintf("v%d", i))
+				arg := v
+				switch rapid.IntRange(0, 15).Draw(rt, "vkind") {
+				case 0:
+					v, arg = []byte{}, []byte{}
+					emptyVals++
+				case 1:
+					v, arg = []byte{}, nil // Set(k, nil) stores a zero-length value, like the MapDB does
+					emptyVals++
+				}
 				fresh := rapid.Bool().Draw(rt, "fresh")
-				ops = append(ops, fmt.Sprintf("set(%q,%q,%s)", string(b), k, v))
-				if err := bucket(top, b, fresh).Set([]byte(k), v); err != nil {
+				ops = append(ops, fmt.Sprintf("set(%q,%q,%q)", string(b), k, v))
+				if err := bucket(top, b, fresh).Set([]byte(k), arg); err != nil {
 					fail("Set error %v", err)
 				}
 				id := string(b) + "/" + k
@@ -285,7 +302,7 @@ func TestC19(t *testing.T) {
 				if err != nil {
 					fail("Get error %v", err)
 				}
-				if !bytes.Equal(got, want) || (got == nil) != (want == nil) {
+				if !bytes.Equal(got, want) || (want == nil && got != nil) {
 					fail("layer Get(%q,%q)=%s, the view holds %s", string(b), k, c19q(got), c19q(want))
 				}
 				has, err := bk.Has([]byte(k))
@@ -375,6 +392,9 @@ func TestC19(t *testing.T) {
 		}
 		if commits > 0 && discards > 0 {
 			labels = append(labels, "commitAndDiscard")
+		}
+		if emptyVals > 0 {
+			labels = append(labels, "emptyValueWritten")
 		}
 		rec.Case(fmt.Sprintf("depth=%d ctx=%v %s", depth, ctxBase, desc), nontrivial, labels...)
 	})
